@@ -2,6 +2,7 @@ import Mathlib.Analysis.SpecialFunctions.Trigonometric.Basic
 import Mathlib.Algebra.Ring.GrindInstances
 import CirqVerif.Props.C03b
 import CirqVerif.Props.C19b
+import CirqVerif.Props.C04Rules
 /-!
 # Non-vacuity: the hypotheses of the symbolic gate theorems hold in the intended model
 
@@ -89,5 +90,17 @@ theorem cEnv2_lawful2 : Lawful2 cEnv2 where
 theorem cEnv_nontrivial : cEnv.ph 0 ≠ cEnv.ph 1 := by
   have h1 : cEnv.ph 1 = -1 := cEnv2_lawful2.ph_one
   rw [cEnv_lawful.ph_zero, h1]; norm_num
+
+/-- the side hypotheses of `C04_decompose_phasediswap` and `C04_decompose_fsim` hold with the half-turn counts `θ/π`, `φ/π` -/
+theorem cEnv_twoA : cEnv.twoA = 1 + 1 := by simp only [cEnv]; norm_num
+
+theorem cEnv_fsim_hyps (θ φ : ℝ) :
+    cEnv.cos θ = cEnv.cosπ (θ / Real.pi) ∧ cEnv.sin θ = cEnv.sinπ (θ / Real.pi) ∧ cEnv.cis (-φ) = cEnv.ph (-(φ / Real.pi)) := by
+  have hpi : Real.pi ≠ 0 := Real.pi_ne_zero
+  have e1 : Real.pi * (θ / Real.pi) = θ := by field_simp
+  refine ⟨?_, ?_, ?_⟩
+  · simp only [cEnv, e1]
+  · simp only [cEnv, e1]
+  · simp only [cEnv]; congr 1; push_cast; field_simp
 
 end CirqVerif.NonVacuity
